@@ -266,6 +266,9 @@ def check_C15(ctx, rep):
         srt_locals = {x[1] for x in walk(sorts[0][2][0]) if isinstance(x, tuple) and len(x) == 2 and x[0] == 'local'}
         ret_locals = {x[1] for r in rets for x in walk(r[2]) if isinstance(x, tuple) and len(x) == 2 and x[0] == 'local'}
         rep.ob('C15.R3', sa, 'returns-the-sorted-vector', len(rets) == 1 and bool(srt_locals & ret_locals), 'returns %s' % (shape(rets[0][2]) if rets else '?'))
+    rep.rule('C15.R4', 'queue tag agreement: every Queue tag handed out with a peeked event names the heap the event came from, EventQueue::pop '
+             'pops the heap its tag names (exhaustive over Queue), and the SimQueue wrappers route to the side selected by is_client')
+    check_queue_tags(ctx, rep, 'C15.R4')
     rep.assumptions += ['ordering/time properties of the queue machinery and the "exactly that many when the run ends" count are NOT decided',
                         'every CFG path is treated as feasible']
     return 'producer table of packet events in the simulator, queue completeness, final sort'
@@ -457,6 +460,9 @@ def check_C16(ctx, rep):
             flag = num(a[5])
             ok = su is not None and su == sb and flag is not None and ((su == 2) == bool(flag))
             rep.ob('C16.R4', pq, 'earliest-side-args:%s' % ('client' if flag else 'server'), ok, 'until of param %s, bypassable of param %s, is_client %s' % (su, sb, flag))
+    rep.rule('C16.R5', 'bypass classification: queue::peek_blocking treats the bypassable heap as blocked exactly when the active blocking is not '
+             'bypassable, queue::peek_non_blocking treats it as free exactly when it is; peek_queue_earliest_side passes the side\'s own flag')
+    check_bypass_classification(ctx, rep, 'C16.R5')
     rep.assumptions += ['which queued packet leaves while blocked (peek selection among queues) is NOT decided',
                         'every CFG path is treated as feasible']
     return 'handler tables for blocking in the simulator, Option-slot typestate, producer inventory, side consistency of the bypass decision'
@@ -1086,3 +1092,142 @@ def int_width(ty):
 def cast_from(x):
     """source type of a cast node"""
     return x[4] if len(x) > 4 and x[4] else 'usize'
+
+
+# =================================================================== queue tag agreement (C15.R4) and bypass classification (C16.R5)
+
+def heap_of(e):
+    """name of the EventQueue heap an expression reads (peek/pop of self.<heap>)"""
+    for x in walk(e):
+        if isinstance(x, tuple) and x and x[0] == 'fld' and x[2].endswith('EventQueue'):
+            return x[3]
+    return None
+
+
+def check_queue_tags(ctx, rep, rid):
+    prog, an = ctx.prog, ctx.an
+    qvars = prog.variants('maybenot_simulator::queue_event::Queue')
+    low = {v: v.lower() for v in qvars}
+    heaps = [f['name'] for f in prog.adt('maybenot_simulator::queue_event::EventQueue')['variants'][0]['fields'] if 'BinaryHeap' in f['ty']]
+    rep.ob(rid, 'Queue', 'one-tag-per-heap', sorted(low.values()) == sorted(heaps), 'Queue variants %s vs heaps %s' % (sorted(qvars), sorted(heaps)))
+    # EventQueue::pop: arm Queue::X pops heap x
+    pop = prog.fn(SIM, 'EventQueue', 'pop')
+    pa = an.get(pop)
+    pf = an.paths(pop, history=True)
+    seen = set()
+    for (b, f, a, t) in calls(pa):
+        if callee_str(f).endswith('BinaryHeap::<T, A>::pop') or callee_str(f).endswith('BinaryHeap::<T>::pop'):
+            h = heap_of(a[0])
+            for S in pf.at_entry(b):
+                var = [f2[2] for f2 in S if f2[0] == 'variant' and f2[2] in qvars]
+                nots = [x for f2 in S if f2[0] == 'notvariant' for x in f2[2]]
+                names = var[:1] if var else [v for v in qvars if v not in nots]
+                for n in names:
+                    seen.add(n)
+                    rep.ob(rid, pop, 'pop:%s' % n, low[n] == h, 'Queue::%s pops heap %s' % (n, h))
+    for v in qvars:
+        rep.ob(rid, pop, 'pop-covers:' + v, v in seen, '')
+    # tag/value pairs returned by the peek helpers: (value from heap x, Queue::X)
+    for (adt, name) in (('EventQueue', 'peek_non_blocking'), (None, 'peek_blocking'), (None, 'peek_non_blocking'), ('EventQueue', 'peek_blocking'), ('EventQueue', 'peek_bypassable')):
+        fn = prog.fn_opt(SIM, adt, name)
+        if fn is None:
+            rep.fail_closed(rid, '%s::%s' % (adt or 'queue', name))
+            continue
+        fa = an.get(fn)
+        rep.analysed(fn)
+        for (b, k, v) in ret_defs(fa):
+            if v[0] == 'tuple' and len(v[2]) == 2 and v[2][1][0] == 'agg' and v[2][1][1].endswith('Queue'):
+                val, tag = v[2][0], v[2][1][2]
+                h = heap_of(val)
+                if h is None:
+                    # value obtained through an accessor: peek_blocking()/peek_bypassable()
+                    for x in walk(val):
+                        if is_call(x, 'EventQueue::peek_blocking'):
+                            h = 'blocking'
+                        elif is_call(x, 'EventQueue::peek_bypassable'):
+                            h = 'bypassable'
+                rep.ob(rid, fn, 'tag-matches-heap:%s' % tag, h == low.get(tag), '(%s, Queue::%s)' % (shape(val)[:40], tag))
+            elif adt == 'EventQueue' and name in ('peek_blocking', 'peek_bypassable'):
+                want = 'blocking' if name == 'peek_blocking' else 'bypassable'
+                rep.ob(rid, fn, 'accessor-reads-own-heap', heap_of(v) == want, 'returns %s' % shape(v))
+    # EventQueue::peek: whenever the tag local is set to Queue::X the candidate is the head of heap x
+    pk = prog.fn(SIM, 'EventQueue', 'peek')
+    ka = an.get(pk)
+    n = 0
+    for b in sorted(ka.cfg.reach):
+        tags = []
+        vals = []
+        for k, s in enumerate(ka.blocks[b]['s']):
+            if 'p' not in s or s['rv']['k'] == 'setdiscr':
+                continue
+            v = ka.rvalue(s['rv'], (b, k))
+            if v[0] == 'agg' and v[1].endswith('queue_event::Queue') and not s['p']['pr']:
+                tags.append(v[2])
+            if not s['p']['pr'] and ka.fn.local_ty(s['p']['l']).startswith('core::option::Option<&') and 'SimEvent' in ka.fn.local_ty(s['p']['l']):
+                h = heap_of(v)
+                if h:
+                    vals.append(h)
+        for tg in tags:
+            if tg == 'Blocking' and not vals and any(is_const(ka.rvalue(s['rv'], (b, 0)), 0) for s in ka.blocks[b]['s'] if 'p' in s and s['rv']['k'] == 'use'):
+                continue
+            n += 1
+            ok = low.get(tg) in vals or (not vals and tg == 'Blocking')
+            rep.ob(rid, pk, 'peek-tag:%s' % tg, ok, 'Queue::%s set where the candidate comes from heap(s) %s' % (tg, vals))
+    rep.count_floor(rid, 'tag assignments in EventQueue::peek', n, 3)
+    # side routing of the SimQueue wrappers
+    for name in ('pop', 'peek_blocking', 'peek_non_blocking', 'pop_blocking'):
+        fn = prog.fn(SIM, 'SimQueue', name)
+        fa = an.get(fn)
+        pfs = an.paths(fn, history=True)
+        isc = [i + 1 for i, v in enumerate(fn.dbg) if False]
+        pi = None
+        for v in fn.dbg:
+            if v['name'] == 'is_client' and not v['p']['pr']:
+                pi = v['p']['l']
+        for b in sorted(fa.cfg.reach):
+            t = fa.blocks[b]['t']
+            if t['k'] != 'call':
+                continue
+            args = tuple(fa.operand(x, (b, len(fa.blocks[b]['s']))) for x in t['a'])
+            sides = {x[3] for a in args for x in walk(a) if isinstance(x, tuple) and x and x[0] == 'fld' and x[2].endswith('SimQueue') and x[3] in ('client', 'server')}
+            if len(sides) != 1 or pi is None:
+                continue
+            want = 'client' in sides
+            ok, w = all_paths(pfs.at_entry(b), lambda S: any((f2[0] == 'btrue' and f2[2] is want and f2[1] == ('param', pi)) or
+                                                            (f2[0] == 'eqc' and f2[1] == ('param', pi) and (f2[2] != '0') is want) or
+                                                            (f2[0] == 'nec' and f2[1] == ('param', pi) and ('0' in f2[2]) is want) for f2 in S))
+            rep.ob(rid, fn, 'routes-to-own-side:%s' % ('client' if want else 'server'), ok, '')
+
+
+def check_bypass_classification(ctx, rep, rid):
+    """while the active blocking is NOT bypassable, bypassable packets count as blocked; only bypassable blocking lets them through"""
+    prog, an = ctx.prog, ctx.an
+    pb = prog.fn(SIM, None, 'peek_blocking')
+    pnb = prog.fn(SIM, None, 'peek_non_blocking')
+    for (fn, flag_when_bypassable_heap_used) in ((pb, False), (pnb, True)):
+        fa = an.get(fn)
+        pf = an.paths(fn, history=True)
+        n = 0
+        for (b, f, a, t) in calls(fa):
+            if callee_str(f).endswith('EventQueue::peek_bypassable'):
+                n += 1
+                ok, w = all_paths(pf.at_entry(b), lambda S: any(f2[0] == 'btrue' and f2[1] == ('param', 2) and f2[2] is flag_when_bypassable_heap_used for f2 in S))
+                rep.ob(rid, fn, 'bypassable-heap-considered-only-when-flag-is-%s' % flag_when_bypassable_heap_used, ok, '')
+        rep.count_exact(rid, 'peek_bypassable sites in %s' % fn.name, n, 1)
+        # and on the other flag value every return is computed without the bypassable heap
+        for (b, k, v) in ret_defs(fa):
+            for S in pf.at(b, k):
+                other = any(f2[0] == 'btrue' and f2[1] == ('param', 2) and f2[2] is (not flag_when_bypassable_heap_used) for f2 in S)
+                if other:
+                    rep.ob(rid, fn, 'other-branch-ignores-bypassable-heap', not contains(v, lambda x: is_call(x, 'EventQueue::peek_bypassable')), 'returns %s' % shape(v)[:60])
+    # callers hand in the side's own blocking_bypassable
+    for caller_name, callee in (('peek_queue_earliest_side', 'SimQueue::peek_blocking'), ('peek_queue_earliest_side', 'SimQueue::peek_non_blocking')):
+        c = prog.fn(SIM, None, caller_name)
+        ca = an.get(c)
+        pidx = None
+        for v in c.dbg:
+            if v['name'] == 'blocking_bypassable' and not v['p']['pr']:
+                pidx = v['p']['l']
+        for (b, f, a, t) in calls(ca):
+            if callee_str(f).endswith(callee):
+                rep.ob(rid, c, 'passes-side-flag-to:' + callee.split('::')[-1], pidx is not None and a[1] == ('param', pidx), '%s(%s)' % (callee, ', '.join(show(x)[:25] for x in a)))
